@@ -36,7 +36,7 @@ namespace sim {
     X(frame_read_row, "C15", 0) X(frame_read_cell, "C15", 0) X(frame_read_col, "C15", 0) \
     X(abuse_array, "C16", 1) X(abuse_dims, "C16", 1) X(abuse_tag, "C16", 1) X(abuse_none, "C16", 1) \
     X(abuse_frame, "C16", 1) X(abuse_misc, "C16", 1) \
-    X(force_id, "C12", 1) X(mk_graph, "C04", 1) X(abuse_tagging, "C16", 1) \
+    X(force_id, "C12", 1) X(mk_graph, "C04", 1) X(abuse_tagging, "C16", 1) X(mk_fitted, "C04", 1) \
     X(ro_catalogue, "C09", 0) X(mode_probe, "C09", 0) X(version_cube, "C10", 0) X(xp, "C12", 0)
 
 enum OpKind {
@@ -178,10 +178,13 @@ struct World {
     std::set<uint64_t> state_hashes, triples;
     int64_t sim_start;
     bool stop;                  // end the run after the current op
+    bool twin_safe;             // this run is one of a pair (observed / unobserved execution of the same plan): kills, drops, flush faults and stale-handle use are skipped in both
+    bool blind;                 // the unobserved twin: nothing is read back before the final restart
+    bool threaded_run;          // some operations of this run are issued from a second caller thread (started and joined per operation)
     bool ghosts_allowed;        // keep handles to deleted / still-live entities across operations (abuse, durable lanes)
 
     World() : file_gen(0), is_open(false), mode(0), session(0), cur(-1), have_last(false), flush_valid(false), ro_tracking(false),
-              ro_writes0(0), ro_wopens0(0), getters(0), sim_start(0), stop(false), ghosts_allowed(false), del_result(false) { prefer_live = false; viol_own = false; lookups_due = true; }
+              ro_writes0(0), ro_wopens0(0), getters(0), sim_start(0), stop(false), twin_safe(false), blind(false), threaded_run(false), ghosts_allowed(false), del_result(false) { prefer_live = false; viol_own = false; lookups_due = true; }
 
     // -- running
     void run(const Plan &p, const std::string &dir);
@@ -224,6 +227,7 @@ struct World {
     int exec_frame(const Op &op);
     int exec_abuse(const Op &op);
     int mk_graph(const Op &op);
+    int mk_fitted(const Op &op);
     // deletion bookkeeping (C04)
     std::string del_victim;                  // id of entity about to be deleted (set by delete ops)
     bool del_result;
@@ -235,6 +239,8 @@ struct World {
 };
 
 void progress(int idx, int kind);
+extern bool g_blind_twin;      // set by the zygote in the child that executes the unobserved twin
+bool plan_is_twin(const Plan &p);
 int create_array_op(World &w, const Op &op);
 int create_frame_op(World &w, const Op &op);
 int exec_special_op(World &w, const Op &op);
